@@ -79,6 +79,7 @@ pub fn registry() -> Vec<PartEntry> {
         part!("C14", alloc::C14Handles),
         part!("C15", seq::C15Channels),
         part!("C15", seq::C15Raw),
+        part!("C15", containers::WrapDiffSched),
         part!("C16", life::C16Retry),
         part!("C16", seq::C16Seq),
         part!("C17", life::C17Churn),
